@@ -440,8 +440,10 @@ impl<K: StructuralWritable, V: StructuralWritable> Encoder<MapOperation<K, V>>
 #[derive(Debug, Default, Clone, Copy)]
 struct MessageEncoder<Inner>(Inner);
 
+/// The flag is set while the inner decoder is part way through a frame (it has consumed some of it
+/// and is waiting for more): the front of the buffer is then not a header.
 #[derive(Debug, Default, Clone, Copy)]
-struct MessageDecoder<Inner>(Inner);
+struct MessageDecoder<Inner>(Inner, bool);
 
 impl<K, V, Inner> Encoder<MapMessage<K, V>> for MessageEncoder<Inner>
 where
@@ -484,7 +486,10 @@ where
     type Error = FrameIoError;
 
     fn decode(&mut self, src: &mut BytesMut) -> Result<Option<Self::Item>, Self::Error> {
-        let MessageDecoder(inner) = self;
+        let MessageDecoder(inner, in_operation) = self;
+        if *in_operation {
+            return decode_operation(inner, in_operation, src);
+        }
         if src.remaining() < TAG_SIZE + LEN_SIZE {
             src.reserve(TAG_SIZE + LEN_SIZE);
             return Ok(None);
@@ -511,12 +516,26 @@ where
                     MapMessage::Drop(n)
                 }))
             }
-            _ => {
-                let result = inner.decode(src)?;
-                Ok(result.map(Into::into))
-            }
+            _ => decode_operation(inner, in_operation, src),
         }
     }
+}
+
+/// Pass the buffer to the operation decoder. If it stops part way through a frame, having consumed
+/// some of it, everything that arrives until that frame is finished belongs to it and must not be
+/// inspected as a header.
+fn decode_operation<K, V, Inner>(
+    inner: &mut Inner,
+    in_operation: &mut bool,
+    src: &mut BytesMut,
+) -> Result<Option<MapMessage<K, V>>, FrameIoError>
+where
+    Inner: Decoder<Item = MapOperation<K, V>, Error = FrameIoError>,
+{
+    let before = src.remaining();
+    let result = inner.decode(src);
+    *in_operation = matches!(result, Ok(None)) && (*in_operation || src.remaining() < before);
+    Ok(result?.map(Into::into))
 }
 
 #[derive(Debug, Default, Clone, Copy)]
